@@ -14,6 +14,54 @@ pub fn gen(ctx: &Ctx) -> Vec<Value> {
     let mut rng = Rng::new(ctx.seed ^ 0xB111D);
     let n = if ctx.thorough() { 60000 } else { 4000 };
     let mut out = Vec::new();
+    // ---- grid: every leaf data type × nullability × position × offender.  Three rows: representable, the offender,
+    // representable — the offender (a null-like or a value of the wrong shape) sits at the leaf position.  Quick:
+    // the two null-likes plus one random offender per cell; thorough: every offender.
+    {
+        let dts = gen_schema::all_leaf_dts();
+        let offs = gen_schema::offenders();
+        let mut g = 0usize;
+        for dt in &dts {
+            for nullable in [false, true] {
+                for pos in 0..5u32 {
+                    let leaf = gen_schema::field(if pos == 0 { "a" } else { "element" }, nullable, dt.clone());
+                    let col = match pos {
+                        0 => leaf.clone(),
+                        1 => gen_schema::field("a", false, json!({"t": "List", "child": leaf.clone()})),
+                        2 => gen_schema::field("a", true, json!({"t": "Struct", "fields": [gen_schema::field("x", nullable, dt.clone()), gen_schema::field("y", true, json!({"t": "Int8"}))]})),
+                        3 => gen_schema::field("a", false, json!({"t": "FixedSizeList", "n": 2, "child": leaf.clone()})),
+                        _ => gen_schema::field("a", false, json!({"t": "LargeList", "child": gen_schema::field("element", true, json!({"t": "Struct", "fields": [gen_schema::field("x", nullable, dt.clone())]}))})),
+                    };
+                    let mut r = rng.fork();
+                    let pick = 2 + r.usize(offs.len() - 2);
+                    for (oi, off) in offs.iter().enumerate() {
+                        if !ctx.thorough() && oi >= 2 && oi != pick {
+                            continue;
+                        }
+                        let strict = ValCfg::strict();
+                        let lf = gen_schema::field("x", nullable, dt.clone());
+                        let wrap = |r: &mut Rng, v: Value| -> Value {
+                            match pos {
+                                0 => v,
+                                1 => crate::sval::seq(vec![gen_schema::gen_value(r, &lf, &strict), v]),
+                                2 => crate::sval::record("S", vec![("x".into(), 0, v), ("y".into(), 0, crate::sval::int("i8", 1))]),
+                                3 => crate::sval::seq(vec![v, gen_schema::gen_value(r, &lf, &strict)]),
+                                _ => crate::sval::seq(vec![crate::sval::record("S", vec![("x".into(), 0, v)])]),
+                            }
+                        };
+                        let good1 = gen_schema::gen_value(&mut r, &lf, &strict);
+                        let good2 = gen_schema::gen_value(&mut r, &lf, &strict);
+                        let rows: Vec<Value> = vec![wrap(&mut r, good1), wrap(&mut r, off.clone()), wrap(&mut r, good2)]
+                            .into_iter()
+                            .map(|v| crate::sval::record("R", vec![("a".into(), 0, v)]))
+                            .collect();
+                        out.push(json!({"id": format!("build-g{g:05}"), "seed": r.0, "schema": [col.clone()], "rows": rows}));
+                        g += 1;
+                    }
+                }
+            }
+        }
+    }
     for c in 0..n {
         let mut r = rng.fork();
         let sub = r.0;
